@@ -32,6 +32,7 @@ def check(run):
     if True:    # the algebraic comparison takes a few seconds: part of the quick tier too
         import casrules
         run.rule('CAS.form', casrules.RULE)
+        run.rule('CAS.floor', 'the degenerate (variance at the floor) branch of skewness / kurtosis yields 0 and the bias adjustment leaves it 0: the adjustment either maps 0 to 0 or its guard excludes 0')
         n = casrules.check_aggs(run, run.facts('base'))
         run.floor('CAS.form', 'skewness / kurtosis closed forms', n, 2)
     return run.finish(
